@@ -27,6 +27,29 @@ use crate::parser::visitor::Visitor;
 const MAX_SIGNATURE_LINE_LEN: usize = 100;
 
 pub(crate) fn format(src: &str, path: &Path) -> String {
+    // A single pass computes all its edits from the text it was
+    // given. Its output can still differ from what a pass over that
+    // output produces: re-indenting a line can push a signature past
+    // the wrapping limit, or move a comment or continuation line that
+    // is then indented relative to its new neighbours. Repeat until
+    // the text is stable, so formatting formatted code is a no-op.
+    let mut result = format_once(src, path);
+    for _ in 0..MAX_EXTRA_PASSES {
+        let next = format_once(&result, path);
+        if next == result {
+            break;
+        }
+        result = next;
+    }
+
+    result
+}
+
+/// The most times we reformat the output of `format_once` looking for
+/// a fixed point.
+const MAX_EXTRA_PASSES: usize = 5;
+
+fn format_once(src: &str, path: &Path) -> String {
     // Phase 0: Wrap long single-line function/method signatures onto
     // multiple lines before any other formatting. This requires
     // re-parsing afterwards because line numbers and offsets shift.
